@@ -2,6 +2,6 @@ SPECIFICATION Spec
 CONSTANTS
   K = 2
   N = 4
-INVARIANTS ItemIsCount DoneOK
+INVARIANTS ItemIsCount DoneOK NthOK CountOK
 PROPERTY Terminates
 CHECK_DEADLOCK FALSE
